@@ -85,6 +85,9 @@ func handleSet(params internal.HandlerFuncParams) ([]byte, error) {
 	// If expiresAt is set, set the key's expiry time as well
 	if options.expireAt != nil {
 		params.SetExpiry(params.Context, key, options.expireAt.(time.Time), false)
+	} else if params.GetExpiry(params.Context, key) != (time.Time{}) {
+		// A plain SET replaces the value and discards the expiry of the previous one.
+		params.SetExpiry(params.Context, key, time.Time{}, false)
 	}
 
 	return res, nil
@@ -108,6 +111,13 @@ func handleMSet(params internal.HandlerFuncParams) ([]byte, error) {
 	// Set all the values
 	if err = params.SetValues(params.Context, entries); err != nil {
 		return nil, err
+	}
+
+	// The new values replace the old ones, so the expiry of the previous values is discarded.
+	for key := range entries {
+		if params.GetExpiry(params.Context, key) != (time.Time{}) {
+			params.SetExpiry(params.Context, key, time.Time{}, false)
+		}
 	}
 
 	return []byte(constants.OkResponse), nil
